@@ -98,7 +98,10 @@ def loadNative (t : Tree) (st : St) (path : String) : St × Res ErrTok :=
     if t.regNative.contains path then mk "R" path []
     else if t.globNative.contains path then mk "G" path []
     else if t.core.contains path then
-      mk "C" path (if path.startsWith pre then [] else [pre ++ path])
+      -- `node:`+name is an alias of this core module unless a module is registered under that very name
+      let alias := pre ++ path
+      mk "C" path (if path.startsWith pre || t.regNative.contains alias || t.globNative.contains alias
+                      || t.core.contains alias then [] else [alias])
     else if path.startsWith pre then
       let name := (path.drop pre.length).toString
       if t.core.contains name then
